@@ -33,6 +33,9 @@ FIXED = [
  ("fix: a backslash before a whitespace character", ["C16"], "`'\\ '` rejected as an unending string"),
  ("fix: `break`/`continue` after an inner loop", ["C12"], "`loop loop break end break end` rejected"),
  ("fix: division and modulo by zero", ["C09","C12"], "`return 10 / match` on non-numeric text panicked with integer divide by zero"),
+ ("fix: an empty line comment", ["C15"], "`--` directly followed by a newline swallowed the whole next line (`--\\nfind all 'a'` parsed to nothing)"),
+ ("fix: a block comment whose text ends in", ["C15"], "`find --( x )-)-- all 'a'` rejected as an unending block comment"),
+ ("fix: whitespace or a comment after the amount clause", ["C15"], "`find all` is accepted but `find all ` (trailing blank) was rejected"),
 ]
 
 FINDINGS = [
